@@ -839,6 +839,7 @@ def run(report, prog, tier):
 
 X = 'nfc.clf.pn53x'
 MUTANTS = [
+    ('pn53x-cancel-ack-bypasses-envelope', 'nfc.clf.pn53x', "                    self.write_frame(self.ACK)  # cancel command", "                    self.send_ack()  # cancel command", 'C14-R1'),
     ('acr122-second-read-unchecked', 'nfc.clf.acr122', """            log.error("RDR_to_PC_DataBlock length mismatch")
             raise IOError(errno.EIO, os.strerror(errno.EIO))
         return frame[10:]""", """            log.error("RDR_to_PC_DataBlock length mismatch")
